@@ -300,6 +300,10 @@ def scenario_small(rng, optset, tier):
     n = rng.choice([1, 2, 3, 4, 5, 6, 7, 8])
     verts = vertex_labels(rng, n, contig, short)
     pool = dyadic_pool(rng, True)
+    if optset not in ("link", "fast") and rng.random() < 0.12:
+        # the same pool 2^26 higher: exact in double, not in the 24 significant bits of a float (a narrowing inside the tree
+        # merges distinct values); not for the two option sets whose Filtration_value is float (link, fast)
+        pool = [x + (1 << 26) for x in pool]
     maxdim = rng.choice([0, 1, 2, 3, 4])
     ops = build_ops(rng, verts, maxdim, rng.randrange(1, 7), pool, contig)
     ref = Ref(-32768 if short else -2 ** 31)
